@@ -243,6 +243,9 @@ def pseudoB2 (sub : String) (a b : W Reg) : Option (String × W Reg × W Reg) :=
   | "Bleu" => some ("Bgeu", b, a)
   | _ => none
 
+/-- does the value fit the 20-bit field of `lui` / `auipc` (`(-(1 << 19)..(1 << 20)).contains`)? -/
+def upperFits (v : Word) : Bool := decide (-(524288 : Int) ≤ v.toInt) && decide (v.toInt < 1048576)
+
 /-- Parse one statement whose mnemonic token `m` names instruction variant `v`. -/
 def parseInst (m : FTok) (v : String) : P Node := do
   match instType v with
@@ -257,7 +260,9 @@ def parseInst (m : FTok) (v : String) : P Node := do
     pure (.csr (wi sub m) rd csr rs1 (← rawNow))
   | "UpperArith" => do
     let rd ← getReg; let imm ← getImm
-    pure (.iarith (wi sub m) rd (x0 m) ⟨imm.val <<< 12, imm.tok⟩ (← rawNow))
+    -- the 20-bit field, written as an unsigned or as a sign-extended value
+    if !(upperFits imm.val) then throw (.expected ["IMMEDIATE"] imm.tok)
+    else pure (.iarith (wi sub m) rd (x0 m) ⟨imm.val <<< 12, imm.tok⟩ (← rawNow))
   | "Arith" => do
     let rd ← getReg; let rs1 ← getReg; let rs2 ← getReg
     pure (.arith (wi sub m) rd rs1 rs2 (← rawNow))
